@@ -24,7 +24,7 @@ from netqasm.sdk.transpile import NVSubroutineTranspiler
 
 from sim.core import Choices, Discard, Sched, Trace, Violation
 from sim.props.c05 import _last_sub
-from sim.rigs.controller import ControllerNode
+from sim.rigs.controller import ControllerNode, LivenessWatch
 from sim.stubs.backend import reset_globals
 from sim.stubs.connection import SimConnection, SimNetworkInfo
 from sim.stubs.link import FakeLink
@@ -400,13 +400,14 @@ def run(ch: Choices, opts: Dict[str, Any]) -> Dict[str, Any]:
 
     sched.spawn("host", host_task(), party="host")
     sched.spawn("retry", node.retry_task(lambda: state["done"], ch, max_delay=100), party="ctrl-retry")
-    cap_steps = 8000
+    watch = LivenessWatch(sched, [node], link, window=6000, hard=300000)
     try:
         while not state["done"]:
             if sched.step() is None:
                 raise Violation("liveness", f"liveness|deadlock|{hw}|{eprs()}", {**sample, "pending": len(node.ex._pending_epr_responses)})
-            if sched.steps > cap_steps:
-                raise Violation("liveness", f"liveness|no-progress|{hw}|{eprs()}", {**sample, "pending": len(node.ex._pending_epr_responses)})
+            stuck = watch.verdict()
+            if stuck:
+                raise Violation("liveness", f"liveness|{stuck}|{hw}|{eprs()}", {**sample, "pending": len(node.ex._pending_epr_responses)})
         link.stop()
         if qm.errors:
             raise Violation("controller", f"memory|{qm.errors[0].split(' ')[0]}|{hw}|{eprs()}", {"errors": qm.errors[:3], **sample})
